@@ -488,6 +488,18 @@ impl<A: All2All> Votor<A> {
         self.handle_blockstore_event(event).await;
     }
 
+    /// Takes the timeouts that have fired so far (without handling them): `(slot, crashed_leader)`.
+    pub fn verif_fired_timeouts(&mut self) -> Vec<(Slot, bool)> {
+        let mut fired = Vec::new();
+        while let Ok(event) = self.timeout_receiver.try_recv() {
+            fired.push((
+                event.slot(),
+                matches!(event, VotorTimeout::TimeoutCrashedLeader(_)),
+            ));
+        }
+        fired
+    }
+
     /// Runs the handler for one timeout event.
     pub async fn verif_timeout(&mut self, slot: Slot, crashed_leader: bool) {
         let event = if crashed_leader {
